@@ -1677,6 +1677,7 @@ func vC05RunScenario(t vC05Toggles, hostsPath string, steps []vC05Step) []vC05St
 		return a
 	}
 	// --- wire side
+	cache.VC05FreshEntryLimiters() // both servers of a scenario start from full per-entry buckets
 	sw := vC05NewServer(t, hostsPath)
 	// one transport job slot for the whole history, as the engines reuse a slab: strict-path storage
 	// and TX lease carry over from packet to packet (poisoned with 0xFF two times out of three, holding
@@ -1754,9 +1755,9 @@ func vC05RunScenario(t vC05Toggles, hostsPath string, steps []vC05Step) []vC05St
 		out[i].wLog = sw.takeLog()
 	}
 	sw.stop()
-	if t.entryRate > 0 {
-		time.Sleep(1100 * time.Millisecond)
-	}
+	// the per-entry limiters are a process-global pool: the decoded-path server starts from full buckets like the
+	// wire-path server did (fresh pools instead of a one-second refill pause)
+	cache.VC05FreshEntryLimiters()
 	// --- message side
 	sm := vC05NewServer(t, hostsPath)
 	for i, st := range steps {
@@ -1987,7 +1988,7 @@ func TestVerifC05Differential(t *testing.T) {
 	}
 
 	// ------------------------------------------------ phase 1: ingress verdicts
-	nIngress := n / 4
+	nIngress := n / 7 // ~600 ingress cases in a quick run: eight verdict kinds, dominated by VProceed
 	{
 		ws := vC05NewServer(vC05Toggles{minimalPipe: true}, hostsPath)
 		ms := vC05NewServer(vC05Toggles{minimalPipe: true}, hostsPath)
@@ -2040,7 +2041,7 @@ func TestVerifC05Differential(t *testing.T) {
 	}
 
 	// ------------------------------------------------ phase 2: two-server differential
-	budget := n - nIngress
+	budget := n - n/4
 	scen := 0
 	// scripted histories first: the ladder orders and hand-overs the random histories reach rarely
 	type sq struct {
@@ -2141,6 +2142,13 @@ func TestVerifC05Differential(t *testing.T) {
 	// everything ages: exact hits, cuts, failures and denial proofs across small and large advances
 	add2(vC05Toggles{}, pk("pos2", 1, 0x0100, false, true, 1232), pk("pos2", 1, 0x0100, false, true, 1232), sh(2), pk("pos2", 1, 0x0100, false, true, 1232), sh(2), pk("pos2", 1, 0x0100, false, true, 1232), sh(2), pk("pos2", 1, 0x0100, false, true, 1232),
 		pk("pos0", 1, 0x0100, false, true, 1232), sh(299), pk("pos0", 1, 0x0100, false, true, 1232), sh(2), pk("pos0", 1, 0x0100, false, true, 1232))
+	// an OPT version the edns handler answers itself (BADVERS) on a warm alias chain and a warm exact entry: the
+	// chain / entry is viewed, the cache serves nothing on either path (chase kind `decoded`)
+	pkv := func(name string, qt, ver int) vC05Step {
+		q := &vC05Query{id: 2990, name: name + "." + vC05Zone, qtype: qt, qclass: 1, flags: 0x0100, opt: true, size: 1232, ver: ver}
+		return vC05Step{raw: q.pack(g), tag: fmt.Sprintf("scripted %s/%d version=%d", q.name, qt, ver), ip: net.IPv4(203, 0, 113, 41)}
+	}
+	add2(vC05Toggles{}, pk("ca0", 1, 0x0100, false, true, 1232), pk("ca0", 1, 0x0100, false, true, 1232), pkv("ca0", 1, 1), pk("pos0", 1, 0x0100, false, true, 1232), pkv("pos0", 1, 255), pk("ca0", 1, 0x0100, false, true, 1232))
 	add2(vC05Toggles{}, pk("nx1", 1, 0x0100, true, true, 1232), pk("a.nx1", 1, 0x0100, true, true, 1232), sh(30), pk("a.nx1", 1, 0x0100, false, true, 1232), sh(40), pk("a.nx1", 1, 0x0100, false, true, 1232), pk("nxf0", 1, 0x0100, false, true, 1232),
 		pk("sf0", 1, 0x0100, false, true, 1232), pk("sf0", 1, 0x0100, false, true, 1232), sh(4), pk("sf0", 1, 0x0100, false, true, 1232), sh(10), pk("sf0", 1, 0x0100, false, true, 1232), pk("sf0", 1, 0x0100, false, true, 1232))
 	// refresh queue on.  (i) an alias chain whose hop enters its refresh window while the alias itself is
@@ -2424,7 +2432,14 @@ func TestVerifC05Differential(t *testing.T) {
 			budget -= nsteps
 			continue
 		}
+		scenT0 := time.Now()
 		obs := vC05RunScenario(tg, hostsPath, steps)
+		if os.Getenv("VERIF_C05_TIMING") != "" {
+			// debugging aid: where the driver's wall time goes
+			defer func(scen, n int, tg vC05Toggles, d time.Duration) {
+				fmt.Fprintf(os.Stderr, "timing scen %d steps %d first-run %v [%s]\n", scen, n, d, tg.String())
+			}(scen, len(steps), tg, time.Since(scenT0))
+		}
 		if os.Getenv("VERIF_C05_DEBUG") != "" {
 			for i, ob := range obs {
 				fmt.Fprintf(os.Stderr, "scen %d step %d [%s] %s\n  route=%s unsettled=%v\n  w=%s\n  m=%s\n  wlog={%s}\n  mlog={%s}\n", scen, i, tg.String(), steps[i].tag, ob.route, ob.unsettled,
@@ -2437,9 +2452,6 @@ func TestVerifC05Differential(t *testing.T) {
 			// whatever the difference is, rerun on fresh servers; only a difference that shows
 			// at the same step every time is reported (no verdict depends on machine load)
 			for retry := 0; retry < 2; retry++ {
-				if tg.entryRate > 0 {
-					time.Sleep(1100 * time.Millisecond)
-				}
 				obs2 := vC05RunScenario(tg, hostsPath, steps)
 				at2, _ := vC05Differs(obs2)
 				if at2 != at {
